@@ -3,6 +3,8 @@ use explore::{guard, Ctx};
 use hdwallet::account::{PrivateKey, Signature};
 use hdwallet::transaction::Transaction;
 use refmodel::eth;
+use refmodel::json::J;
+use refmodel::txjson::{self, Spell};
 use refmodel::hash::keccak256;
 use refmodel::rlp::{self, Item};
 use refmodel::secp::{Curve, U256};
@@ -78,4 +80,31 @@ pub fn expect_accept(ctx: &Ctx, p: &str, sweep: &str, index: u64, shape: &str, t
             if let Some((kind, what)) = compare_tx(curve, want, &o, Some(key)) { ctx.violation(format!("{p}:tx:{shape}:{kind}"), what, replay()); }
             Some(o) }
     }
+}
+
+/// one member no property names, added to the template of every kind (see the comment inside)
+pub fn foreign_members(ctx: &Ctx, p: &str, sweep: &str) {
+    // members the properties do not name, as they appear in transaction objects copied from a node or another tool (v, r, s,
+    // type, hash, from, yParity, input, gasLimit ...): the document may be refused, but if it is accepted what is signed is
+    // defined by the named fields alone - a left-over `v` or `type` never overrides chainId or the kind
+    let curve = Curve::new();
+    let extras: Vec<(&str, J)> = vec![("v", J::s("0x25")), ("v", J::s("0x26")), ("v", J::s("0x1b")), ("v", J::n("37")), ("v", J::s("0x0")), ("v", J::Null), ("r", J::s("0x1")), ("s", J::s("0x1")), ("yParity", J::s("0x1")),
+        ("type", J::s("0x0")), ("type", J::s("0x1")), ("type", J::s("0x2")), ("type", J::n("2")), ("hash", J::Str(format!("0x{}", "ab".repeat(32)))), ("from", J::Str(format!("0x{}", "cd".repeat(20)))), ("input", J::s("0xdeadbeef")), ("gasLimit", J::s("0x1")),
+        ("chain_id", J::n("1")), ("ChainId", J::n("1")), ("chainID", J::n("1")), ("networkId", J::n("1")), ("blockHash", J::Null), ("blockNumber", J::Null), ("transactionIndex", J::Null), ("maxFeePerBlobGas", J::s("0x1")), ("blobVersionedHashes", J::Arr(vec![])), ("authorizationList", J::Arr(vec![])), ("", J::n("1")), ("nonce ", J::n("9"))];
+    let ne = extras.len() as u64;
+    ctx.sweep(sweep, "per kind: the template plus one member no property names (29 members / values found in node responses and other tools: v, r, s, yParity, type, hash, from, input, gasLimit, other spellings of chainId, block fields, blob / authorization fields), placed first or last: refused, or signed exactly as the named fields say", 4 * ne * 2, |i| {
+        let (kind, with_chain, kname) = crate::c06::kinds()[(i / (ne * 2)) as usize]; let (name, val) = &extras[((i / 2) % ne) as usize]; let first = i % 2 == 0;
+        // blob / authorization members would make the kind one this tool does not know; with them present nothing is required
+        let tx = txjson::template(kind, with_chain); let mut f = txjson::tx_fields(&tx, Spell::Auto);
+        if first { f.insert(0, (name.to_string(), val.clone())); } else { f.push((name.to_string(), val.clone())); }
+        let text = J::Obj(f).to_text(); let shape = format!("{kname},foreign-member={}", if name.is_empty() { "(empty)" } else { name.trim() });
+        let replay = tx_replay(sweep, i, &text, Some(&tx), Some(&crate::c06::keys()[0]));
+        ctx.sample(sweep, || replay.clone());
+        emit_tx(ctx, sweep, i, 1, &shape, &text, Some(&tx), "unconstrained", &curve);
+        match observe_tx(&text, &Signer::Key(&crate::c06::keys()[0])) {
+            Err(pn) => { ctx.eval(format!("{shape}:panic")); ctx.panic_violation(format!("{p}:tx:{shape}:panic@{}", explore::panic_site(&pn)), format!("panics: {pn}"), replay) }
+            Ok(Err(_)) => ctx.eval(format!("{shape}:refused")),
+            Ok(Ok(o)) => { ctx.eval(format!("{shape}:accepted")); if let Some((k, what)) = compare_tx(&curve, &tx, &o, Some(&crate::c06::keys()[0])) { ctx.violation(format!("{p}:tx:{shape}:{k}"), format!("the member {name:?} changed what is signed: {what}"), replay) } }
+        }
+    });
 }
